@@ -1,6 +1,7 @@
 /-
   C02 — No scaling activity while a cloud scale-up is inside its cool-down.
 -/
+import EscProofs.P.GenLock
 import EscProofs.Lemmas.Run
 import EscProofs.Lemmas.Shape
 namespace Esc.P
